@@ -19,6 +19,10 @@ ASSUMPTIONS = [
     'references are float64 NumPy direct sums / definitions written from the '
     'docstrings (harness/np_ref.py); layers run with dtype=param_dtype='
     'float64 under jax_enable_x64 and are compared with rtol=1e-9, atol=1e-10',
+    'rank-3 convolutions run without input dilation: the installed XLA '
+    'aborts the process for some of them (check failure in '
+    'conv_operand_swapper), an environment defect that would turn the check '
+    'into a harness error; excluded cases are counted',
     'input_dilation > 1 is combined only with VALID or explicit padding, and '
     'CIRCULAR/REFLECT only with stride 1 (the docstrings do not define window '
     'alignment otherwise)',
@@ -193,6 +197,13 @@ def conv(case, ctx):
     # wrap/reflect need the input to be at least as large as the padding
     spatial = [max(s, k) for s, k in zip(spatial, k_eff)]
   if pad in ('SAME', 'CAUSAL'):
+    in_dil = [1] * nd
+  if nd == 3:
+    # the installed XLA aborts the process (check failure in
+    # conv_operand_swapper) for some rank-3 convolutions with input
+    # dilation: an environment defect outside flax, excluded by construction
+    if any(d_ != 1 for d_ in in_dil):
+      ctx.exclude('xla-abort-rank3-input-dilation')
     in_dil = [1] * nd
   if pad == 'int':
     padding = case['pad_vals'][0][0]
@@ -611,14 +622,26 @@ def dropout(case, ctx):
   x2 = (np.abs(rnd(rng, shape)) + 0.5).astype(np.float32)
   k1, k2 = KEY(case['seed']), KEY(case['seed'] + 1)
   if case['api'] == 'linen':
-    m = nn.Dropout(rate=rate, broadcast_dims=bdims, deterministic=det)
-    run = lambda x, k: np.asarray(m.apply({}, jnp.asarray(x),
-                                          rngs={'dropout': k}))
+    if case['seed'] % 2:
+      m = nn.Dropout(rate=rate, broadcast_dims=bdims, deterministic=det)
+      run = lambda x, k: np.asarray(m.apply({}, jnp.asarray(x),
+                                            rngs={'dropout': k}))
+    else:
+      m = nn.Dropout(rate=rate, broadcast_dims=bdims)
+      run = lambda x, k: np.asarray(m.apply({}, jnp.asarray(x),
+                                            deterministic=det,
+                                            rngs={'dropout': k}))
   else:
     def run(x, k):
-      mm = nnx.Dropout(rate=rate, broadcast_dims=bdims, deterministic=det,
-                       rngs=nnx.Rngs(dropout=k))
-      return np.asarray(mm(jnp.asarray(x)))
+      # the flag at construction, or the opposite at construction and the
+      # wanted value at call time (call time wins)
+      if case['seed'] % 2:
+        mm = nnx.Dropout(rate=rate, broadcast_dims=bdims, deterministic=det,
+                         rngs=nnx.Rngs(dropout=k))
+        return np.asarray(mm(jnp.asarray(x)))
+      mm = nnx.Dropout(rate=rate, broadcast_dims=bdims,
+                       deterministic=not det, rngs=nnx.Rngs(dropout=k))
+      return np.asarray(mm(jnp.asarray(x), deterministic=det))
   with sut('Dropout'):
     y1, y2, y3 = run(x1, k1), run(x2, k1), run(x1, k2)
   if det or rate == 0.0:
@@ -661,6 +684,9 @@ def dropout(case, ctx):
             'k': st.integers(1, 3), 's': st.integers(1, 2),
             'padding': st.sampled_from(['SAME', 'VALID', 'CIRCULAR', 'CAUSAL']),
             'use_bias': st.booleans(), 'train': st.booleans(),
+            # where the train / inference flag is given: constructor, call
+            # time only, or call time overriding the constructor (NNX)
+            'flag_at': st.sampled_from(['ctor', 'call', 'override']),
             'seed': st.integers(0, 2**16)}),
         quick=300, thorough=12000, quick_shards=8, thorough_shards=16,
         x64=True, shrink=False,
@@ -716,17 +742,25 @@ def linen_vs_nnx(case, ctx):
     nm = nnx.GroupNorm(2 * d, num_groups=2, use_bias=ub, rngs=rn, **dt)
   elif layer == 'batchnorm':
     x = rnd(rng, (4, d))
-    lm = nn.BatchNorm(use_running_average=not case['train'], momentum=0.8,
-                      use_bias=ub, **dt)
-    nm = nnx.BatchNorm(d, use_running_average=not case['train'], momentum=0.8,
-                       use_bias=ub, rngs=rn, **dt)
+    ura = not case['train']
+    fa = case.get('flag_at', 'ctor')
+    # linen accepts the flag in exactly one place; for NNX the call-time
+    # value takes precedence over the attribute (documented)
+    lm = nn.BatchNorm(use_running_average=ura if fa == 'ctor' else None,
+                      momentum=0.8, use_bias=ub, **dt)
+    nm = nnx.BatchNorm(d, use_running_average={'ctor': ura, 'call': False,
+                                               'override': not ura}[fa],
+                       momentum=0.8, use_bias=ub, rngs=rn, **dt)
+    call_kw = {} if fa == 'ctor' else {'use_running_average': ura}
   else:
     x = rng.integers(0, d, size=(2, 3))
     lm = nn.Embed(d, f, **dt)
     nm = nnx.Embed(d, f, rngs=rn, **dt)
   xj = jnp.asarray(x)
+  if layer != 'batchnorm':
+    call_kw = {}
   with sut('linen init'):
-    v = unfreeze(lm.init(KEY(0), xj))
+    v = unfreeze(lm.init(KEY(0), xj, **call_kw))
   if v.get('params'):
     v['params'] = randomize(v['params'], rng)
   if 'batch_stats' in v:
@@ -737,12 +771,14 @@ def linen_vs_nnx(case, ctx):
       setv(getattr(nm, name), val)
     for name, val in v.get('batch_stats', {}).items():
       setv(getattr(nm, name), val)
+  if layer != 'batchnorm':
+    call_kw = {}
   with sut('apply'):
     if 'batch_stats' in v:
-      yl, upd = lm.apply(v, xj, mutable=['batch_stats'])
+      yl, upd = lm.apply(v, xj, mutable=['batch_stats'], **call_kw)
     else:
       yl, upd = lm.apply(v, xj), {}
-    yn = nm(xj)
+    yn = nm(xj, **call_kw)
   require(close(yl, yn), lambda: f'{layer}: NNX output differs from Linen on '
           f'the same parameters; max diff '
           f'{np.max(np.abs(np.asarray(yl) - np.asarray(yn))) if np.shape(yl) == np.shape(yn) else (np.shape(yl), np.shape(yn))}')
